@@ -59,6 +59,8 @@ type scenario struct {
 	main      []*types.Block // prepared blocks extending the tip
 	fork      []*types.Block // prepared fork from an ancestor, longer than base (+main if delivered alone)
 	forkBase  uint32
+	compressed bool
+	maxDetach int // blocks a reorg to the fork may have to detach (fork depth + prepared main blocks)
 	poolTxs   []interfaces.Transaction
 	balances  map[int][]common.Fixed64 // key index -> balance after height baseH+i on the main line (i=0..len(main))
 	forkBal   map[int]common.Fixed64   // balances at fork tip
@@ -87,7 +89,14 @@ func balancesOf(u node.UTXOSet, nkeys int) map[int]common.Fixed64 {
 
 // prepare builds the scenario single-threaded (all randomness from rapid).
 func prepare(t *rapid.T) *scenario {
-	n, err := node.New(node.Opts{})
+	// profile: legacy (pure PoW era) or compressed (CRC-only DPoS era from height 8: the
+	// arbiter/committee state is rewritten by every block, so state queries race with real writes)
+	compressed := rapid.Bool().Draw(t, "compressed")
+	opts := node.Opts{}
+	if compressed {
+		opts.Tweak = node.Compressed(node.Heights{VoteStart: 2, CRCOnlyDPOS: 8})
+	}
+	n, err := node.New(opts)
 	if err != nil {
 		t.Fatalf("harness: node.New: %v", err)
 	}
@@ -98,6 +107,9 @@ func prepare(t *rapid.T) *scenario {
 	// base chain: 4-8 blocks mined by different keys so several keys own coins
 	tip := n.Genesis
 	nb := rapid.IntRange(4, 8).Draw(t, "base")
+	if compressed {
+		nb += 8
+	}
 	var chain []*types.Block
 	chain = append(chain, tip)
 	for i := 0; i < nb; i++ {
@@ -186,6 +198,8 @@ func prepare(t *rapid.T) *scenario {
 		ftip = b
 	}
 	s.forkBal = balancesOf(fu, len(n.Keys))
+	s.compressed = compressed
+	s.maxDetach = back + nm
 
 	// mempool transactions: independent spends of base coins + conflicts with prepared block txs
 	coins := u.Spendable(tip.Height+1, n.Params.PowConfiguration.CoinbaseMaturity)
@@ -215,6 +229,11 @@ func prepare(t *rapid.T) *scenario {
 			t.Fatalf("harness: pool transfer: %v", err)
 		}
 		s.poolTxs = append(s.poolTxs, tx)
+	}
+	if compressed {
+		s.desc = append(s.desc, "profile=compressed(H1=8)")
+	} else {
+		s.desc = append(s.desc, "profile=legacy")
 	}
 	s.desc = append(s.desc, fmt.Sprintf("base=%d main=%d(txs) forkFrom=%d forkLen=%d pool=%d", nb, nm, s.forkBase, flen, len(s.poolTxs)))
 	return s
@@ -367,6 +386,10 @@ func (s *scenario) quiescent(ops []string) {
 	// expected tip: the fork always wins if delivered (strictly longer than base+main)
 	tipHash := chain[len(chain)-1].Hash()
 	switch {
+	case has(opReorg) && s.compressed && has(opBlocks) && s.maxDetach > 6:
+		// DPoS era: a reorganisation detaching more than 6 blocks is refused by design
+		// (irreversibility, the exception C12 allows); either tip is legitimate
+		vk.Class("reorg-may-be-refused-as-irreversible")
 	case has(opReorg):
 		if tipHash != s.fork[len(s.fork)-1].Hash() {
 			s.fail("C40:quiescent:tip-not-heaviest", fmt.Sprintf("tip height %d, fork tip height %d", chain[len(chain)-1].Height, s.fork[len(s.fork)-1].Height))
